@@ -30,7 +30,12 @@ def run(System, beh, opts, nontrivial=None):
                         raise Diverge(i, "exception", "%s %s raised %s: %s" % (
                             act["name"], {k: v for k, v in act.items() if k != "name"}, type(e).__name__, str(e)[:200]), st.get("ret"), repr(e))
             got = sysm.obs()
-            bad = sysm.check(st, ret, got) if hasattr(sysm, "check") else None
+            try:
+                bad = sysm.check(st, ret, got) if hasattr(sysm, "check") else None
+            except Exception as e:  # noqa: observing the real object failed -- that is a finding about the code
+                import traceback
+                bad = ("observation_failed", "observing the state after %s raised %s: %s [%s]" % (
+                    act["name"], type(e).__name__, str(e)[:200], traceback.format_exc().strip().splitlines()[-3].strip()[:120]))
             if bad is None and not hasattr(sysm, "check"):
                 if "ret" in st and ret != st["ret"]:
                     bad = ("ret", "%s returned %r, spec expects %r" % (act["name"], ret, st["ret"]))
